@@ -89,6 +89,8 @@ let judges : (string * (Gsext.sx -> Gsext.verdict)) list = [
   "C20m", Gsext.judge_C20m;
   "C20e", Gsext.judge_C20e;
   "C15", Gsext.judge_C15;
+  "snaps", Gsext.judge_snaps;
+  "trace", Gsext.judge_trace;
 ]
 
 let () =
